@@ -5,26 +5,35 @@
 
   Core Lean only.  Matrices are `List (List Nat)` (row-major), vectors `List Nat`, arithmetic mod `m`.
 
-  Relations checked by `checkAll` (t = width, rp = number of partial rounds, c_k = C[k·t ..(k+1)·t),
-  K_r = K[r·t ..(r+1)·t), Go `mix` multiplies by the transpose of the stored matrix):
+  Notation: t = width, rp = number of partial rounds, c_k = C[k·t ..(k+1)·t), K_r = K[r·t ..(r+1)·t);
+  the Go `mix` multiplies by the TRANSPOSE of the stored matrix.  M̂ = Mref without row 0 / column 0,
+  mrow = row 0 of Mref without its first entry, mcol = column 0 without its first entry.  The S table
+  holds, for every partial round j, the `2t−1` numbers  s00_j, srow_j (t−1), scol_j (t−1)  of the sparse
+  matrix  Sp_j = [[s00_j, srow_j], [scol_j, I]]  (`sparse`).
+
+  Relations checked by `checkAll` (each by explicit products):
     (R1) (Go M)ᵀ = Mref
     (R2) c_0 = K_0;  Mref·c_{i+1} = K_{i+1}                      (i = 0,1,2)
-    (R3) witnesses (A_j, b_j), j = 0..rp:  A_rp = I, b_rp = −K_{4+rp};
-         A_0·(Go P)ᵀ = Mref;  Mref·c_4 = −b_0;  and for j < rp
-           row 0 and column 0 of A_j are e_0;  (b_j + K_{4+j})_0 = 0;
-           Mref·A_j = A_{j+1}·Sp_j;
-           Mref·(b_j + K_{4+j}) = C[5t+j]·(A_{j+1}·Sp_j·e_0) + b_{j+1}
     (R4) Mref·C[5t+rp+i·t ..) = K_{4+rp+1+i}                     (i = 0,1,2)
-  `Sp_j` is the sparse matrix of partial round j (`sparse`).
+    (R3) witnesses: a matrix N̂ ((t−1)×(t−1)) and vectors b_0..b_rp with
+           N̂·M̂ = I;   diag(1, N̂^rp)·(Go P)ᵀ = Mref;   Mref·c_4 = −b_0;   b_rp = −K_{4+rp};
+         and for every j < rp
+           s00_j = Mref[0][0];
+           srow_j·M̂ = srow_{j+1}  (mrow if j = rp−1);
+           M̂·scol_{j+1} = scol_j  (scol_{rp−1} = mcol);
+           (b_j + K_{4+j})_0 = 0;   Mref·(b_j + K_{4+j}) = C[5t+j]·(Mref·e_0) + b_{j+1}.
+  With A_j := diag(1, N̂^(rp−j)) these give  Mref·A_j = A_{j+1}·Sp_j, hence the invariant
+  s_{4+j} = A_j·v_j + b_j between the reference state s and the Go state v (I3.Lemmas.PoseidonRefine).
+  The cost is O(t²) per partial round plus O(log rp) matrix products (the matrices A_j are never formed).
 
-  The witnesses are PROPOSED by `computeWitnesses` (Gauss–Jordan inverse of `Mref` and the backward
-  chain A_j = Mref⁻¹·(A_{j+1}·Sp_j)); the soundness theorem (I3.Lemmas.PoseidonRefine) is about
-  `checkAll` with ARBITRARY witnesses, so nothing depends on `matInv`/`computeWitnesses` being right.
+  The witnesses are PROPOSED by `computeWitnesses` (Gauss–Jordan inverses); the soundness theorem is
+  about `checkAll` with ARBITRARY witnesses, so nothing depends on `matInv`/`computeWitnesses` being right.
 
   Kernel evaluation (`decide +kernel`) has no sharing: a term substituted in several places is
   re-evaluated in each.  Every intermediate vector/matrix that is used more than once is therefore
-  first evaluated to literals by the continuation-passing `forceNat/forceVec/forceMat/forceWs`
-  (semantically the identity: `forceX x k = k x`).
+  first evaluated to literals by the continuation-passing `forceNat/forceVec/forceMat/forceHead`
+  (semantically the identity: `forceX x k = k x`), and the long tables are walked once
+  (the chain threads `S.drop …`, `K.drop …`, `C.drop …`) instead of being indexed in every round.
 -/
 import I3.Model.Poseidon
 namespace I3.PoseidonCheck
@@ -48,9 +57,11 @@ def forceMat {α : Type} : List (List Nat) → (List (List Nat) → α) → α
   | [], k => k []
   | r :: rs, k => forceVec r fun r' => forceMat rs fun rs' => k (r' :: rs')
 
-def forceWs {α : Type} : List (Mat × Vec) → (List (Mat × Vec) → α) → α
-  | [], k => k []
-  | w :: ws, k => forceMat w.1 fun A => forceVec w.2 fun b => forceWs ws fun ws' => k ((A, b) :: ws')
+/-- evaluate a list to weak head normal form (enough for a suffix of a literal list). -/
+def forceHead {α : Type} (l : List Nat) (k : List Nat → α) : α :=
+  match l with
+  | [] => k []
+  | x :: xs => k (x :: xs)
 
 /-! ### vectors and matrices mod `m`
     Convention: the arguments of `dot/matVec/matMulT` are already forced. -/
@@ -87,7 +98,8 @@ def scaleVec (m c : Nat) (a : Vec) : Vec := a.map fun x => c * x % m
 def seg (l : List Nat) (i n : Nat) : List Nat := (l.drop i).take n
 
 /-- The sparse matrix of partial round `j`: row 0 is `S[base .. base+t)`, row `k ≥ 1` is
-    `S[base+t+k−1]·e_0 + e_k`, with `base = (2t−1)·j`. -/
+    `S[base+t+k−1]·e_0 + e_k`, with `base = (2t−1)·j`.  (Not evaluated by `checkAll`; it is the matrix
+    by which `Model.Poseidon.partialRound` is shown to act, see `toVec_partialRound`.) -/
 def sparse (t : Nat) (S : List Nat) (j : Nat) : Mat :=
   seg S ((t * 2 - 1) * j) t ::
     List.zipWith (fun s r => s :: r) (seg S ((t * 2 - 1) * j + t) (t - 1)) (identity (t - 1))
@@ -105,6 +117,21 @@ def eqMat : Mat → Mat → Bool
 def isVec (m t : Nat) (v : Vec) : Bool := Nat.beq v.length t && v.all fun x => Nat.blt x m
 
 def isMat (m t : Nat) (A : Mat) : Bool := Nat.beq A.length t && A.all (isVec m t)
+
+/-- `A` without its first row and first column. -/
+def subMat (A : Mat) : Mat := A.tail.map List.tail
+
+/-- `diag(1, X)` for an `n × n` matrix `X`. -/
+def diagBlock (n : Nat) (X : Mat) : Mat := (1 :: List.replicate n 0) :: X.map fun r => 0 :: r
+
+/-- `A ^ e` for an `n × n` matrix by square-and-multiply with fuel (`e < 2 ^ fuel`). -/
+def powMatF (m n : Nat) (A : Mat) : Nat → Nat → Mat
+  | 0, _ => identity n
+  | f+1, e =>
+    if e = 0 then identity n
+    else forceMat (powMatF m n A f (e / 2)) fun R =>
+      forceMat (matMul m n R R) fun R2 =>
+        if e % 2 = 1 then matMul m n R2 A else R2
 
 /-! ### proposing the witnesses (no correctness claim is needed for these) -/
 
@@ -139,50 +166,64 @@ def matInv (m t : Nat) (A : Mat) : Mat :=
   forceMat (List.zipWith (· ++ ·) A (identity t)) fun aug =>
     (gjLoop m t 0 aug).map (List.drop t)
 
-/-- Backward chain: from `(A_{j+1}, b_{j+1})` to `(A_j, b_j)`. -/
-def witLoop (m t : Nat) (K C S : List Nat) (Minv : Mat) :
-    Nat → Mat → Vec → List (Mat × Vec) → List (Mat × Vec)
+/-- rows `K_4 … K_{4+n-1}` paired with `C[5t] … C[5t+n-1]`, in REVERSE order (one walk of the tables). -/
+def revRows (t : Nat) : Nat → List Nat → List Nat → List (Vec × Nat) → List (Vec × Nat)
   | 0, _, _, acc => acc
-  | j+1, A', b', acc =>
-    forceMat (sparse t S j) fun Sp =>
-    forceMat (matMul m t A' Sp) fun ASp =>
-    forceMat (matMul m t Minv ASp) fun A =>
-    forceVec (addVec m (scaleVec m (C.getD ((4 + 1) * t + j) 0) (matVec m ASp (unitVec t 0))) b') fun rhs =>
-    forceVec (subVec m (matVec m Minv rhs) (seg K ((4 + j) * t) t)) fun b =>
-    witLoop m t K C S Minv j A b ((A, b) :: acc)
+  | n+1, Krest, Crest, acc =>
+    forceHead (Krest.drop t) fun Knext =>
+    forceHead Crest.tail fun Cnext =>
+    forceVec (Krest.take t) fun row =>
+    revRows t n Knext Cnext ((row, Crest.headD 0) :: acc)
 
-/-- The witnesses `(A_0,b_0), …, (A_rp,b_rp)` of relation (R3). -/
-def computeWitnesses (m t rp : Nat) (K : List Nat) (Mref : Mat) (tab : Tables) : List (Mat × Vec) :=
+/-- Backward chain `b_j = Mref⁻¹·b_{j+1} + C[5t+j]·e_0 − K_{4+j}`. -/
+def bLoop (m t : Nat) (Minv : Mat) : List (Vec × Nat) → Vec → List Vec → List Vec
+  | [], _, acc => acc
+  | (row, c) :: rows, b', acc =>
+    forceVec (subVec m (addVec m (matVec m Minv b') (scaleVec m c (unitVec t 0))) row) fun b =>
+    bLoop m t Minv rows b (b :: acc)
+
+/-- The witnesses `(N̂, [b_0, …, b_rp])` of relation (R3). -/
+def computeWitnesses (m t rp : Nat) (K : List Nat) (Mref : Mat) (tab : Tables) : Mat × List Vec :=
   forceMat (matInv m t Mref) fun Minv =>
+  forceMat (matInv m (t - 1) (subMat Mref)) fun Nhat =>
   forceVec (negVec m (seg K ((4 + rp) * t) t)) fun bl =>
-  forceMat (identity t) fun I =>
-  witLoop m t K tab.C tab.S Minv rp I bl [(I, bl)]
+  (Nhat, bLoop m t Minv (revRows t rp (K.drop (4 * t)) (tab.C.drop ((4 + 1) * t)) []) bl [bl])
 
 /-! ### the checker -/
 
-/-- Relation (R3) for one partial round `j`: `w = (A_j, b_j)`, `w' = (A_{j+1}, b_{j+1})`. -/
-def stepOk (m t : Nat) (K C S : List Nat) (Mref : Mat) (j : Nat) (w w' : Mat × Vec) : Bool :=
-  forceVec (addVec m w.2 (seg K ((4 + j) * t) t)) fun β =>
-  forceMat (sparse t S j) fun Sp =>
-  forceMat (matMul m t w'.1 Sp) fun ASp =>
-  eqVec (w.1.headD []) (unitVec t 0) && eqVec (w.1.map fun r => r.headD 0) (unitVec t 0) &&
+/-- Relation (R3) for one partial round: `Srest = S.drop ((2t−1)·j)`, `Krest = K.drop ((4+j)·t)`,
+    `Crest = C.drop (5t+j)`, `Snext = S.drop ((2t−1)·(j+1))`; `last` iff `j = rp − 1`. -/
+def stepOk (m t : Nat) (Mref Mhat MhatT : Mat) (mrow mcol col0 : Vec) (m00 : Nat) (last : Bool)
+    (Srest Snext Krest Crest : List Nat) (b b' : Vec) : Bool :=
+  forceVec (seg Srest 1 (t - 1)) fun srow =>
+  forceVec (seg Srest t (t - 1)) fun scol =>
+  forceVec (addVec m b (Krest.take t)) fun β =>
+  Nat.beq (Srest.headD 0) m00 &&
+  eqVec (matVec m MhatT srow) (if last then mrow else seg Snext 1 (t - 1)) &&
+  (if last then eqVec scol mcol
+    else forceVec (seg Snext t (t - 1)) fun scol' => eqVec (matVec m Mhat scol') scol) &&
   Nat.beq (β.headD 1) 0 &&
-  eqMat (matMul m t Mref w.1) ASp &&
-  eqVec (matVec m Mref β)
-    (addVec m (scaleVec m (C.getD ((4 + 1) * t + j) 0) (matVec m ASp (unitVec t 0))) w'.2)
+  eqVec (matVec m Mref β) (addVec m (scaleVec m (Crest.headD 0) col0) b')
 
-/-- (R3) along the list of witnesses, ending with `A_rp = I`, `b_rp = −K_{4+rp}`. -/
-def chainOk (m t : Nat) (K C S : List Nat) (Mref : Mat) : Nat → Mat × Vec → List (Mat × Vec) → Bool
-  | j, w, [] => eqMat w.1 (identity t) && eqVec w.2 (negVec m (seg K ((4 + j) * t) t))
-  | j, w, w' :: rest => stepOk m t K C S Mref j w w' && chainOk m t K C S Mref (j + 1) w' rest
+/-- (R3) along the list of the `b_j`, ending with `b_rp = −K_{4+rp}`. -/
+def chainOk (m t : Nat) (Mref Mhat MhatT : Mat) (mrow mcol col0 : Vec) (m00 : Nat) :
+    List Nat → List Nat → List Nat → Vec → List Vec → Bool
+  | _, Krest, _, b, [] => eqVec b (negVec m (Krest.take t))
+  | Srest, Krest, Crest, b, b' :: rest =>
+    forceHead (Srest.drop (t * 2 - 1)) fun Snext =>
+    forceHead (Krest.drop t) fun Knext =>
+    forceHead Crest.tail fun Cnext =>
+    stepOk m t Mref Mhat MhatT mrow mcol col0 m00 rest.isEmpty Srest Snext Krest Crest b b' &&
+      chainOk m t Mref Mhat MhatT mrow mcol col0 m00 Snext Knext Cnext b' rest
 
-def checkAll (m t rp : Nat) (K : List Nat) (Mref : Mat) (tab : Tables) (ws : List (Mat × Vec)) : Bool :=
-  forceWs ws fun ws =>
+def checkAll (m t rp : Nat) (K : List Nat) (Mref : Mat) (tab : Tables) (ws : Mat × List Vec) : Bool :=
+  forceMat ws.1 fun Nhat =>
+  forceMat ws.2 fun bs =>
   -- shapes and ranges
   Nat.blt 0 t &&
   isMat m t Mref && isMat m t tab.M && isMat m t tab.P &&
   isVec m (8 * t + rp) tab.C && isVec m ((t * 2 - 1) * rp) tab.S && isVec m ((8 + rp) * t) K &&
-  Nat.beq ws.length (rp + 1) && (ws.all fun w => isMat m t w.1 && isVec m t w.2) &&
+  isMat m (t - 1) Nhat && Nat.beq bs.length (rp + 1) && (bs.all fun b => isVec m t b) &&
   -- (R1)
   eqMat (transpose t tab.M) Mref &&
   -- (R2)
@@ -195,11 +236,20 @@ def checkAll (m t rp : Nat) (K : List Nat) (Mref : Mat) (tab : Tables) (ws : Lis
     forceVec (seg tab.C ((4 + 1) * t + rp + i * t) t) fun c =>
       eqVec (matVec m Mref c) (seg K ((4 + rp + (i + 1)) * t) t)) &&
   -- (R3)
-  (match ws with
-   | [] => false
-   | w0 :: rest =>
-     eqMat (matMulT m w0.1 tab.P) Mref &&
-     (forceVec (seg tab.C (4 * t) t) fun c => eqVec (matVec m Mref c) (negVec m w0.2)) &&
-     chainOk m t K tab.C tab.S Mref 0 w0 rest)
+  (forceMat (subMat Mref) fun Mhat =>
+   forceMat (transpose (t - 1) Mhat) fun MhatT =>
+   forceVec ((Mref.headD []).tail) fun mrow =>
+   forceVec (Mref.tail.map fun r => r.headD 0) fun mcol =>
+   forceVec (matVec m Mref (unitVec t 0)) fun col0 =>
+   eqMat (matMul m (t - 1) Nhat Mhat) (identity (t - 1)) &&
+   (forceMat (diagBlock (t - 1) (powMatF m (t - 1) Nhat (Nat.log2 rp + 1) rp)) fun A0 =>
+      eqMat (matMulT m A0 tab.P) Mref) &&
+   (match bs with
+    | [] => false
+    | b0 :: rest =>
+      (forceVec (seg tab.C (4 * t) t) fun c => eqVec (matVec m Mref c) (negVec m b0)) &&
+      (forceHead (K.drop (4 * t)) fun K4 =>
+       forceHead (tab.C.drop ((4 + 1) * t)) fun C5 =>
+       chainOk m t Mref Mhat MhatT mrow mcol col0 ((Mref.headD []).headD 0) tab.S K4 C5 b0 rest)))
 
 end I3.PoseidonCheck
